@@ -61,7 +61,23 @@ def _corpus(fam, tier, wd, seed):
     tpath = os.path.join(wd, "corpus.trace.ndjson")
     vlib.write_ndjson(cpath, cases)
     vlib.conform("replay", "syntax", cpath, tpath)
-    return [(tpath, "T:corpus", "Trace_Syntax.tla")]
+    traces = [(tpath, "T:corpus", "Trace_Syntax.tla")]
+    # second leg: TLC reads the projections found in the tree as surface ASTs and renders them with the
+    # reference grammar (MC_Rerender); the harness parses those renderings, same stability rule
+    r = vlib.run_model("MC_Rerender.tla", "MC_Rerender.cfg", wd, "mc_rerender", workers=8, env_extra=dict(CORPUS=tpath))
+    if not r["ok"]:
+        raise vlib.ToolError("MC_Rerender failed: %s\n%s" % (r["error"], r["tail"][-2000:]))
+    rcases = []
+    for i, c in enumerate(vlib.tlc_lines(r["out"], "CASE")):
+        c["id"] = "r%d" % i
+        rcases.append(c)
+    os.remove(r["out"])
+    rc = os.path.join(wd, "rerender.cases.ndjson")
+    rt = os.path.join(wd, "rerender.trace.ndjson")
+    vlib.write_ndjson(rc, rcases)
+    vlib.conform("replay", "syntax", rc, rt)
+    traces.append((rt, "T:rerender", "Trace_Syntax.tla"))
+    return traces
 
 
 def _mutate(ev):
@@ -124,7 +140,8 @@ C05 = dict(
          "parse, AST printer, to_cedar, JSON round trip, EST printer, PolicySet::to_cedar / Display before and after JSON). TLC recomputes the "
          "desugared AST (Syntax!SxCore) and requires every path's projection to equal it (in order, or as a multiset where a set is printed). "
          "T: every *.cedar file in the tree and every policy text embedded as a string literal in the parser / AST / EST / API / formatter / CLI "
-         "sources: projection stable under the same paths. distinct by (surface set, style) / source.",
+         "sources: projection stable under the same paths; and every projection so found is read back as a surface AST, rendered by Syntax!SxToks in the "
+         "three styles (MC_Rerender) and must parse to the same projection again. distinct by (surface set, style) / source.",
     exhaustive=dict(quick=False, thorough=False),
     assumptions=["the harness's token spelling (escapes, digits, whitespace) and its structural projection of ast::Template are faithful",
                  "record-literal key order and the identifier / reserved-word classification of the generated attribute names are tabulated in Syntax.tla",
